@@ -37,13 +37,14 @@ type Tool17 struct {
 	Chunks int    `json:"chunks"`
 	Fault  string `json:"fault,omitempty"` // "", err, streamerr, panic
 	Empty  bool   `json:"empty,omitempty"` // the tool's whole output is the empty string
+	Mark   string `json:"mark,omitempty"`  // prefix of the output (tells tool lists passed per call apart)
 }
 
 func (d Tool17) out(args string) string {
 	if d.Empty {
 		return ""
 	}
-	return toolOut(d.Name, args)
+	return d.Mark + toolOut(d.Name, args)
 }
 
 type Call17 struct {
